@@ -20,6 +20,7 @@ class Registration:
         self.register_fn = register_fn
         self.conv_name = conv_name
         self.key_src = key_src
+        self.closure = None          # evaluator closure (folded extraction only)
 
     @property
     def is_union(self):
@@ -385,6 +386,27 @@ class ConvertersModule:
 # converter, typing, attrs and the types module stubbed; works for tables built by loops / comprehensions /
 # helper functions as well as for the literal tables of the pinned tree
 
+def value_to_ty(types, v) -> "TyVal":
+    """Evaluator value -> TyVal (shared by the registration fold and the hook evaluator)."""
+    from .microeval import ClassRef
+    if isinstance(v, TyVal):
+        return v
+    if v is None or v is type(None):
+        return TyVal(NONE)
+    if isinstance(v, ClassRef):
+        c = types.classes.get(v.name)
+        if c is None:
+            raise AnalysisError(f"class {v.name} used as a type is not defined in types.py")
+        return TyVal(("cls", v.name) if c.kind == "attrs" else ("enum", v.name) if c.kind == "enum" else ("opaque", v.name))
+    if isinstance(v, type) and v.__name__ in PRIMS:
+        return TyVal(("prim", PRIMS[v.__name__]))
+    if isinstance(v, str):
+        if v.isidentifier():
+            return TyVal(("fwd", v))
+        raise AnalysisError(f"string {v!r} in a type position")
+    raise AnalysisError(f"value {v!r} in a type position")
+
+
 class TyVal:
     """A typing object inside the evaluator: a tyexpr plus its ordered top-level union members."""
 
@@ -432,27 +454,20 @@ def fold_registrations(hm: "HooksModule"):
     t = hm.types
 
     def to_ty(v) -> TyVal:
-        if isinstance(v, TyVal):
-            return v
-        if v is None or v is type(None):
-            return TyVal(NONE)
-        if isinstance(v, ClassRef):
-            c = t.classes.get(v.name)
-            if c is None:
-                raise AnalysisError(f"class {v.name} used as a type is not defined in types.py")
-            return TyVal(("cls", v.name) if c.kind == "attrs" else ("enum", v.name) if c.kind == "enum" else ("opaque", v.name))
-        if isinstance(v, type) and v.__name__ in PRIMS:
-            return TyVal(("prim", PRIMS[v.__name__]))
-        if isinstance(v, str):
-            if v.isidentifier():
-                return TyVal(("fwd", v))
-            raise AnalysisError(f"string {v!r} in a type position")
-        raise AnalysisError(f"value {v!r} in a type position")
+        return value_to_ty(t, v)
 
     def class_ref(name):
         c = t.classes[name]
-        bases = ["Enum"] if c.kind == "enum" else []
-        return ClassRef(name, c.kind, bases)
+        if c.kind == "enum":
+            members = [Record(name, {"value": val, "name": mn}) for mn, val in c.members]
+
+            def ctor(v, _members=members):
+                for m_ in _members:
+                    if m_.fields["value"] == v and type(m_.fields["value"]) is type(v):
+                        return m_
+                raise Raised("ValueError", (f"{v!r} is not a valid {name}",))
+            return ClassRef(name, c.kind, ["Enum"], call=ctor, iter=lambda _m=members: _m)
+        return ClassRef(name, c.kind, [])
     tattrs = {}
     for name in t.env:
         if name in t.classes:
@@ -483,7 +498,62 @@ def fold_registrations(hm: "HooksModule"):
     for n in ("Union", "Optional", "Sequence", "List", "Iterable", "Dict", "Mapping", "Tuple", "Literal"):
         g[n] = TypingHead(n, to_ty)
     g["Any"] = TyVal(("prim", "any"))
+    SEQ_ORIGIN = ClassRef("collections.abc.Sequence", "abc")
+    MAP_ORIGIN = ClassRef("dict", "abc")
+
+    def from_ty(ty):
+        """tyexpr -> the value the evaluator uses for that type object"""
+        k = ty[0]
+        if k == "prim":
+            return {"int": int, "str": str, "bool": bool, "float": float, "none": type(None), "object": object}.get(ty[1], TyVal(ty))
+        if k in ("cls", "enum", "opaque"):
+            return tattrs.get(ty[1], TyVal(ty))
+        return TyVal(ty)
+
+    def get_origin(v):
+        if not isinstance(v, TyVal):
+            return None
+        k = v.ty[0]
+        if k == "union":
+            return g["Union"]
+        if k == "seq":
+            return SEQ_ORIGIN
+        if k == "list":
+            return list
+        if k == "tup":
+            return tuple
+        if k == "map":
+            return dict
+        if k == "lit":
+            return g["Literal"]
+        return None
+
+    def get_args(v):
+        if not isinstance(v, TyVal):
+            return ()
+        k = v.ty[0]
+        if k == "union":
+            return tuple(from_ty(m) for m in v.order)
+        if k in ("seq", "list"):
+            return (from_ty(v.ty[1]),)
+        if k == "tup":
+            return tuple(from_ty(x) for x in v.ty[1])
+        if k == "map":
+            return (from_ty(v.ty[1]), from_ty(v.ty[2]))
+        if k == "lit":
+            return tuple(v.ty[1])
+        return ()
+    g["get_origin"] = ("host", get_origin)
+    g["get_args"] = ("host", get_args)
+    g["typing"] = ModuleRef("typing", attrs={**{n: g[n] for n in ("Union", "Optional", "Sequence", "List", "Dict", "Tuple",
+                                                                   "Literal", "Any")},
+                                             "get_origin": ("host", get_origin), "get_args": ("host", get_args)})
+    g["abc"] = ModuleRef("collections.abc", attrs={"Sequence": SEQ_ORIGIN, "Mapping": MAP_ORIGIN})
+    g["collections"] = ModuleRef("collections", attrs={"abc": g["abc"]})
+    g["Ellipsis"] = Ellipsis
     it = Interp(name=hm.rel, extra_globals=g)
+    hm.fold_interp = it
+    hm.fold_from_ty = from_ty
     # module level of _hooks.py: functions and simple assignments (type aliases, constants)
     for st in hm.tree.body:
         if isinstance(st, ast.FunctionDef):
@@ -495,7 +565,8 @@ def fold_registrations(hm: "HooksModule"):
                     it.globals[tgt.id] = it.eval(st.value, {})
                 except (AnalysisError, Raised):
                     pass
-    regs, facs = [], []
+    regs, facs, preds = [], [], []
+    hm.predicate_hooks = preds
     for fn_name, args in hm.register_hooks_calls:
         if not args:
             continue
@@ -510,8 +581,10 @@ def fold_registrations(hm: "HooksModule"):
                 if not isinstance(hook, Closure):
                     raise AnalysisError(f"{hm.rel}: a structure hook in {fn_name} is not a function defined in the package")
                 node = hook.node
-                regs.append(Registration(tv.ty, tv.order, node, getattr(node, "name", "<lambda>"), "<folded>",
-                                         node.lineno, fn_name, conv_name, show(tv.ty)))
+                r_ = Registration(tv.ty, tv.order, node, getattr(node, "name", "<lambda>"), "<folded>",
+                                  node.lineno, fn_name, conv_name, show(tv.ty))
+                r_.closure = hook
+                regs.append(r_)
             return ("host", register)
 
         def mk_fac(direction, fn_name=fn_name):
@@ -519,7 +592,14 @@ def fold_registrations(hm: "HooksModule"):
                 facs.append((direction, pred, factory, fn_name))
                 return factory
             return ("host", r)
+        def mk_pred(fn_name=fn_name, conv_name=conv_name):
+            def r(pred, hook):
+                if not isinstance(hook, Closure):
+                    raise AnalysisError(f"{hm.rel}: a predicate structure hook in {fn_name} is not a package function")
+                preds.append((pred, hook, fn_name, conv_name))
+            return ("host", r)
         conv = Record("Converter", {"register_structure_hook": mk_reg(),
+                                    "register_structure_hook_func": mk_pred(),
                                     "register_structure_hook_factory": mk_fac("structure"),
                                     "register_unstructure_hook_factory": mk_fac("unstructure")})
         try:
